@@ -279,12 +279,12 @@ func checkC17(w *World, r *Report) {
 						continue
 					}
 					seenW[s.Instr] = true
-					a := s.Args()
-					if len(a) < 1 {
+					key := cg.StoreKeyOf(s)
+					if key == nil {
 						continue
 					}
 					// lifted per message-tree caller: InitGenesis also writes through this function with stored strings
-					ok := canonicalOnTrees(w, s, a[0], canonical)
+					ok := canonicalOnTrees(w, s, key, canonical)
 					r.Check(ok, "C17.key", funcName(fn)+": trace stored under the canonical address", w.Pos(s.Instr.Pos()), "AccAddress.String()", "the trace is stored under a string taken from the message: bech32 accepts several spellings of one address, so later lookups by the canonical rendering miss it and the lineage is lost")
 				}
 			}
